@@ -243,7 +243,7 @@ class SimDevice:
         self.wire = SymBytes()
         self.frames = []
         self.ctrl = []                    # connection-level packets ready to go
-        self.streams = {}                 # live: lid -> Stream
+        self.streams = core.SymDict()     # live: lid -> Stream (lids may be symbolic)
         self.all_streams = []
         self.emitted = []                 # (cmd, a0, a1, payload, stream)
         self.online = False
@@ -257,7 +257,7 @@ class SimDevice:
         self.wire = SymBytes()
         self.frames = []
         self.ctrl = []
-        self.streams = {}
+        self.streams = core.SymDict()
         self.decoder.buf = SymBytes()
         if self.auth is not None:
             self.auth.reset()
@@ -357,12 +357,7 @@ class SimDevice:
 
     # --- host packets
     def _find_stream(self, lid):
-        if isinstance(lid, SymInt):
-            for k, s in list(self.streams.items()):
-                if lid == k:       # may fork
-                    return s
-            return None
-        return self.streams.get(lid)
+        return self.streams.get(lid)       # SymDict: a symbolic id is compared with the live ids (may fork)
 
     def _on_packet(self, p):
         if self.monitor is not None:
